@@ -79,6 +79,7 @@ def run(ctx, R):
         return any(atom_of(x) == "end_of_file" for x in walk(F.hir(fn)["body"]))
     R.ob("C50:chars:end_of_file-term", eof_atom(helper), "exhausted text must read as end_of_file", F.where(helper))
     fabricated_names(R)
+    term_unified_after_options(R)
 
 
 def fabricated_names(R):
@@ -170,3 +171,35 @@ def _sub(t):
     if t[0] == "cmp":
         for a in t[2]:
             yield from _sub(a)
+
+
+def term_unified_after_options(R):
+    """read_term(S, T, Options): variables/1, variable_names/1 and singletons/1 describe the term READ; only then is that
+    term unified with T. A T that is already partly instantiated must not change them. Both Prolog wrappers (stream and
+    from-chars) hand the primitive a fresh variable and unify the caller's term afterwards."""
+    import os
+    import sys
+    sys.path.insert(0, os.path.dirname(os.path.dirname(os.path.abspath(__file__))))
+    from plread import plread as P
+    from .core import REPO
+    for rel, f, prim in (("src/lib/builtins.pl", ("read_term", 3), "$read_term"), ("src/lib/charsio.pl", ("read_term_from_chars", 3), "$read_term_from_chars")):
+        text = open(os.path.join(REPO, rel)).read()
+        cls = []
+        for t, line in P.read_clauses(text):
+            head, body = P.head_body(t)
+            if P.functor(head) == f:
+                cls.append((line, head, body))
+        if len(cls) != 1:
+            raise AnchorLost("%s: %s/%d (%d clauses)" % (rel, f[0], f[1], len(cls)))
+        line, head, body = cls[0]
+        term = head[2][1]
+        gs = P.conj(body)
+        pi = [i for i, g in enumerate(gs) if g[0] == "cmp" and g[1] == prim]
+        if len(pi) != 1:
+            raise AnchorLost("%s: %s/%d does not call %s once" % (rel, f[0], f[1], prim))
+        parg = gs[pi[0]][2][1]
+        later = [g for g in gs[pi[0] + 1:] if g[0] == "cmp" and g[1] == "=" and len(g[2]) == 2 and set(map(str, g[2])) == {str(term), str(parg)}]
+        R.ob("C50:term-argument-unified-after-the-options-are-made:%s/%d" % f, parg[0] == "var" and parg != term and len(later) == 1,
+             "%s/%d hands its own Term argument to %s: the primitive unifies it with the term read before it makes the variable lists, so a variable of the text that meets an "
+             "instantiated part of Term is missing from them (f(X,Y). read into f(a,_) reports ['Y'=_] where the other reader reports ['X'=a,'Y'=_])" % (f[0], f[1], prim),
+             "%s (line %s)" % (rel, line))
